@@ -53,6 +53,12 @@ CHECKS = {
     "C09": ("exploration", "Hypothesis recursive generation of expression trees over a host packet; deferred evaluation vs eager evaluation of the mirrored tree (value, kind, exception class), plus use as size/count/condition against the reference parser",
             "Random trees over all 18 binary operators in both operand orders, unary operators, length/truth, indexing, slicing with steps, chooses/if_true_then_else in all call forms; each compiled expression is evaluated on four packets in a row and compared with Python's own evaluation of the same tree.",
             "Operands are byte-sized; magnitude of ** and << bounded by construction.", "DESIGN.md section 5 C09"),
+    "C06": ("exploration", "Hypothesis-generated single-Data host declarations over every sizing mode x include_delimiter x search window, with inputs built around the window edge and over the marker's own alphabet; differential against the reference parser + repack check",
+            "One Data field between two sentinels in each of the 7 sizing modes, windows unset/0/1..12, generic and generated code; marker positions swept across the window edge, decoy partial markers, missing/trailing delimiters, size 0 / negative / beyond input; value, cursor, accept/reject and pack()==raw[:end] are checked.",
+            "Regex semantics are Python's re on both sides; reference parser trusted.", "DESIGN.md section 5 C06"),
+    "C17": ("exploration", "bounded-exhaustive enumeration of operation histories (12-op alphabet, length <=5 quick / <=6 thorough) over three described classes x four code paths + Hypothesis-generated long histories; oracle = two-variable state model",
+            "Every history of construct/construct-with-keyword/unpack/set tracked/set described/delete/pack/read operations up to the bound is executed from scratch on AutoLength-over-Data, AutoLength-over-repeated and Auto(func) classes under generated and generic pack/unpack; after every step the attribute, pack() bytes, the tracked field and the absence of __dict__ are compared with the model.",
+            "Exhaustive up to the stated bound, sampled (length <=50) beyond.", "DESIGN.md section 5 C17"),
 }
 
 NOT_YET = {}
